@@ -71,3 +71,12 @@ reg("C18", "model_checking", "E1xE3",
     "post-assignment), typed and untyped: run with the debug worker and under all virtual-worker schedules with <=1 (2) "
     "deviations including die(j) faults; oracle: returns outputs or an error within 30 s real time / 60 virtual seconds.",
     _E3NOTE + " Termination is judged against a finite horizon.")
+
+reg("C11", "model_checking", "E2",
+    "explicit-state BFS over submission histories on a real cache root, to the fixed point of canonical cache states",
+    "One breadth-first search per (ordered read-only cache list, worker in {debug, async virtual worker}); ops: submit of 2 "
+    "python tasks, a workflow and a workflow nesting a workflow with {plain, rerun+propagate, rerun without propagate}, and "
+    "planting a leftover job directory; every transition runs the real Submitter on the restored directory snapshot; body "
+    "executions, outputs, read-only cache bytes and the resulting cache state are compared with a dictionary model. Quick: "
+    "3 cache lists, fixed point reached (31-57 states each); thorough: 5 lists, all identities plantable, depth cap 12.",
+    "Async path uses the default FIFO schedule of the virtual worker; canonical state = identity -> {incomplete, errored, complete} + leftover files.")
